@@ -13,6 +13,7 @@ import GrcVerif.Precedence
 import GrcVerif.Check03
 import GrcVerif.SfntCheck
 import GrcVerif.GlyphAttr
+import GrcVerif.PassBits
 namespace Grc.Driver
 
 structure State where
@@ -314,6 +315,39 @@ def cmdC05 (st : State) : Except String (List String) := do
   if out.isEmpty then return [s!"ok cells={cells} nonDefault={nonDefault} numAttrs={gloc.numAttrs} glatVersion={glat.version}", "done"]
   return out ++ ["done"]
 
+def _root_.Grc.RuleIR.effective (r : RuleIR) : Bool :=
+  r.items.any fun it => it.mod ∧ (it.inCls.isNone ∨ it.out.isSome ∨ !it.attrs.isEmpty)
+
+/-- C14: the hypothesis of `PB.skip_sound` evaluated on the decoded *skipPasses* attributes of the real font. -/
+def cmdC14 (st : State) : Except String (List String) := do
+  let silf ← getSilf st
+  let (_, glat) ← getGlat st
+  let mut out : List String := []
+  if silf.attrSkipPasses == 0 then return ["ok noopt (no skip-passes attribute: every pass always runs)", "done"]
+  for pj in st.ir.passes do
+    let p := pj.index
+    if p ≥ 32 then
+      out := out ++ [s!"pass {p} ok always-run (index >= 32)"]
+    else
+      let attr := silf.attrSkipPasses + p / 16
+      let bitSet : Nat → Bool := fun g =>
+        let v := (glat.glyphs.getD g default).get attr
+        ((v.toNat / 2 ^ (p % 16)) % 2 == 1)
+      let eff := pj.rules.filter RuleIR.effective
+      let rules : List PB.RuleItems := eff.map fun r => r.inputClasses.map fun c => st.ir.classes.getD c []
+      if PB.checkBits bitSet rules then
+        let nset := (List.range (silf.maxGlyphID + 1)).foldl (fun n g => if bitSet g then n + 1 else n) 0
+        out := out ++ [s!"pass {p} ok effectiveRules={eff.length} of={pj.rules.length} glyphsSkippable={nset} of={silf.maxGlyphID + 1}"]
+      else
+        -- failing input: a rule none of whose items is fully cleared; exhibit one glyph string of skippable glyphs that it matches
+        for (r, ri) in pj.rules.zipIdx do
+          if r.effective then
+            let items := r.inputClasses.map fun c => st.ir.classes.getD c []
+            if !PB.ruleHasKey bitSet items then
+              let witness := items.map fun (cls : List Nat) => (cls.find? bitSet).getD 0
+              out := out ++ [s!"pass {p} FAIL rule {ri} (line {r.line}) has no key item: glyph string {witness} consists only of glyphs marked skippable for pass {p} yet the rule matches it"]
+  return out ++ ["done"]
+
 def step (st : State) (toks : List String) : IO (State × List String) := do
   match toks with
   | [] => return (st, [])
@@ -381,6 +415,10 @@ def step (st : State) (toks : List String) : IO (State × List String) := do
     | .error e => return (st, [s!"error {e}", "done"])
   | ["c05"] =>
     match cmdC05 st with
+    | .ok ls => return (st, ls)
+    | .error e => return (st, [s!"error {e}", "done"])
+  | ["c14"] =>
+    match cmdC14 st with
     | .ok ls => return (st, ls)
     | .error e => return (st, [s!"error {e}", "done"])
   | ["c06"] =>
